@@ -3,9 +3,11 @@ package mon
 import (
 	"fmt"
 	"regexp"
+	"sort"
 	"strings"
 	"unicode"
 	"unicode/utf8"
+	"verif/harness/internal/gen"
 
 	"github.com/microcosm-cc/bluemonday"
 
@@ -250,9 +252,12 @@ func c19Matchers() []matcherSpec {
 }
 
 // hostile characters appended to every matcher's alphabet
-var c19Hostile = []string{"\u00a0", "\u2028", "\u0085", "\u200b", "\u3000", "\u0661", "\u2167", "\u01c5", "\uff11", "\u00bd", "<", ">", "\"", "'", "=", "`", "&", ";", "/", "\\", "(", ")", "\x00", "\t", "\n", "\x7f", "\x0b", " ", " ", "\xff", "é", ":", "%", "#", "{", "*", "?", "|", "^", "$"}
+var c19Hostile = []string{"\u2010", "\u2014", "\uff0d", "\u203f", "\uff0e", "\u00a0", "\u2028", "\u0085", "\u200b", "\u3000", "\u0661", "\u2167", "\u01c5", "\uff11", "\u00bd", "<", ">", "\"", "'", "=", "`", "&", ";", "/", "\\", "(", ")", "\x00", "\t", "\n", "\x7f", "\x0b", " ", " ", "\xff", "é", ":", "%", "#", "{", "*", "?", "|", "^", "$"}
 
-var c19Probes = []string{"é", " ", "K", "ſ", " ", "\xff", "\xc0\xaf", "١"}
+var c19Probes = []string{"é", " ", "K", "ſ", " ", "\xff", "\xc0\xaf", "١",
+	// Unicode look-alikes of the punctuation, digits and letters the documented forms use (same general
+	// category, other code point): a class written as \p{..} instead of the literal admits them
+	"\u2010", "\u2013", "\u2014", "\uff0d", "\u2212", "\u203f", "\uff3f", "\uff0e", "\uff0c", "\uff0f", "\uff3c", "\uff08", "\uff09", "\uff3b", "\uff3d", "\uff01", "\u2019", "\uff07", "\uff0b", "\uff05", "\uff1a", "\uff34", "\uff3a", "\u0967", "\u00b2", "\uff10", "\u2160", "\u0131", "\u0130"}
 
 func charClass(s string) string {
 	if s == "" {
@@ -515,6 +520,57 @@ func runC19(ctx *core.Ctx) {
 			cs.Flush(lc)
 		})
 	}
+	// dictionary: keywords of HTML and CSS (and their upper-case / capitalised spellings) that a matcher
+	// might be taught by mistake; longer than anything the exhaustive part reaches
+	var dict []string
+	{
+		seen := map[string]bool{}
+		add := func(w string) {
+			for _, v := range []string{w, strings.ToUpper(w), strings.Title(w)} {
+				if !seen[v] {
+					seen[v] = true
+					dict = append(dict, v)
+				}
+			}
+		}
+		for _, vs := range gen.WellKnownAttrValues {
+			for _, v := range vs {
+				add(v)
+			}
+		}
+		for _, vs := range gen.WellKnownCSS {
+			for _, v := range vs {
+				add(v)
+			}
+		}
+		for _, w := range strings.Fields(`decimal lower-alpha upper-alpha lower-roman upper-roman lower-latin upper-latin lower-greek none inherit initial auto start end centre center-left text-top text-bottom abs-middle abs-bottom abs-top
+			char justify-all match-parent inside outside true false yes no on off null undefined NaN Infinity -Infinity 1e 1e+ 0x10 1_000 1,000 1.0.0 ٣ ½ ① 2024-02-30 2024-13-01 24:00 2024-02-29T24:00:00Z 2024-02-29t10:00z
+			now today P1D PT1H 12:30 12:30:45 +01:00 Z T z t rtl-ltr ltr-rtl bidi vertical horizontal top-left bottom-right flex-start baseline-middle sub super 100px 100em 50%% %50 5e2% +5% -5% 1.% .% alpha roman greek
+			circle-open disc-closed square-filled A1 i1 1a aa II iv IV`) {
+			add(w)
+		}
+		sort.Strings(dict)
+	}
+	for mi := range ms {
+		m := &ms[mi]
+		re := m.re()
+		ctx.RunSeq("dictionary:"+m.name, 1, func(cs *core.Case) {
+			lc := core.LocalCounts{}
+			for _, w := range dict {
+				cs.Eval()
+				lc["dictionary_words_tried"]++
+				if re.MatchString(w) {
+					lc["accepted_by_matcher"]++
+					cs.Nontrivial(core.Hash(m.name, w))
+					if !m.rec(w) {
+						cs.Violate(c19Signature(m, w), fmt.Sprintf("%s accepts %q which is not of its documented form", m.name, w), map[string]interface{}{"matcher": m.name, "value": core.Show(w)})
+					}
+				}
+			}
+			cs.Flush(lc)
+		})
+	}
+	ctx.Floor("dictionary_words_tried", 10000)
 	ctx.Floor("long_strings_tried", 100000)
 	ctx.MinNontrivial(200)
 	ctx.Floor("strings_enumerated", 100000)
